@@ -64,6 +64,8 @@ def BOUNDS(tier):
         "cn_pce_penalty, and symbolic non-negative",
         "enum: n=2 binaries" + (" and n=3" if tier == "thorough" else "")
         + ", gap in {0, 0.1, 0.5} and symbolic gap in [0,1] for n=2, limit in {None,1,2}",
+        "teegen: models aldy builds for planted/perturbed samples of GA, GB, GC (major, "
+        "minor, structure; gap 0 and 0.3)",
         "tee: models built by aldy/tests/test_{cn,major,minor}_synthetic"
         + (" and test_{cn,major,minor}_real" if tier == "thorough" else "")
         + " (a corpus of instances; the verdict per instance is over all assignments)",
@@ -87,6 +89,8 @@ def configs(tier):
     c.append({"kind": "readback"})
     for suite in ("test_cn_synthetic", "test_major_synthetic", "test_minor_synthetic"):
         c.append({"kind": "tee", "suite": suite})
+    for g in ("GA", "GB", "GC"):
+        c.append({"kind": "teegen", "gene": g, "pairs": 30 if tier == "quick" else 200})
     if tier == "thorough":
         for gap in ("0", "0.1", "0.5"):
             for first in range(8):
@@ -1111,6 +1115,103 @@ def run_tee(cfg):
     if failures:
         res["inconclusive"] += [f"repo test failed under tee: {f}" for f in failures]
     return res
+
+
+def run_teegen(cfg):
+    """tee on models aldy builds for planted (and perturbed) samples of a generated gene:
+    major and minor stage for pairs of catalogued alleles, structure stage for planted
+    structures; every CBC answer is certified by z3 on the mirrored model."""
+    import itertools
+    import collections
+    import aldy.lpinterface as lpi
+    import aldy.major as major
+    import aldy.minor as minor
+    import aldy.cn as cn
+    import gengene
+    import stagelib
+    from aldy.gene import Mutation
+    from aldy.profile import Profile
+    from aldy.solutions import CNSolution
+
+    res = new_result(cfg)
+    eng = Engine(name="teegen", timeout_ms=120000)
+    log = []
+    Tee = make_tee_class(log)
+    saved = lpi.model
+    lpi.model = lambda name, solver: Tee(name)
+    gene = gengene.load(cfg["gene"], "hg19")
+    normal = sorted(a for a, al in gene.alleles.items() if al.cn_config == "1")
+    pairs = list(itertools.combinations_with_replacement(normal, 2))[:cfg["pairs"]]
+    try:
+        for k, (a, b) in enumerate(pairs):
+            counts = collections.Counter()
+            sites = set()
+            for al in (a, b):
+                mi = sorted(gene.alleles[al].minors)[-1]
+                for m in set(gene.alleles[al].func_muts) | set(
+                        gene.alleles[al].minors[mi].neutral_muts):
+                    counts[m] += 10 - (k % 3)  # planted, slightly perturbed
+                    sites.add(m.pos)
+            full = dict(counts)
+            for p in sites:
+                alt = sum(c for m, c in counts.items() if m.pos == p and m.op[:3] != "ins")
+                if 20 - alt > 0:
+                    full[Mutation(p, "_")] = 20 - alt
+            for gap in (0, 0.3):
+                prof = Profile("t", gap=gap)
+                cov = stagelib.concrete_coverage(gene, prof, full)
+                start = len(log)
+                with contextlib.redirect_stdout(io.StringIO()):
+                    sols = major.estimate_major(gene, cov, CNSolution(gene, 0, ["1", "1"]),
+                                                "any")
+                    if sols and gap == 0:
+                        minor.estimate_minor(gene, cov, sols[:1], "any")
+                for i, rec in enumerate(log[start:]):
+                    label = f"teegen/{cfg['gene']}/{a}+{b}/gap={gap}#{i}"
+                    for what, status, _ in check_instance(eng, rec, res, label):
+                        if status == "sat":
+                            res["violations"].append({
+                                "what": f"real CBC answer refuted by z3 on {label}: {what}",
+                                "key": f"tee:{what}",
+                                "replay": {"kind": "teegen", "gene": cfg["gene"],
+                                           "pairs": cfg["pairs"]}})
+                    rec["twin"] = None
+        if gene.do_copy_number:
+            for names in (["1", "1"], ["1", "1", "1"]) + tuple(
+                    [["1", c] for c in gene.cn_configs if c != "1"]):
+                rc = {}
+                for r in gene.unique_regions:
+                    g0 = sum(gene.cn_configs[c].cn[0].get(r, 0) for c in names)
+                    g1 = sum(gene.cn_configs[c].cn[1].get(r, 0) for c in names) \
+                        if len(gene.regions) > 1 else 0
+                    rc[r] = (g0 + 0.2, float(g1))
+                for gap in (0, 0.3):
+                    start = len(log)
+                    with contextlib.redirect_stdout(io.StringIO()):
+                        cn.solve_cn_model(gene, Profile("t", gap=gap), gene.cn_configs, 4,
+                                          rc, "any")
+                    for i, rec in enumerate(log[start:]):
+                        label = f"teegen/{cfg['gene']}/cn={'+'.join(names)}/gap={gap}"
+                        for what, status, _ in check_instance(eng, rec, res, label):
+                            if status == "sat":
+                                res["violations"].append({
+                                    "what": f"real CBC answer refuted by z3 on {label}: "
+                                            f"{what}", "key": f"tee:{what}",
+                                    "replay": {"kind": "teegen", "gene": cfg["gene"],
+                                               "pairs": cfg["pairs"]}})
+                        rec["twin"] = None
+    finally:
+        lpi.model = saved
+    res["stats"] = dict(eng.stats)
+    res["stats"]["instances"] = len(log)
+    res["samples"].append({"gene": cfg["gene"], "instances": len(log)})
+    return res
+
+
+def replay_teegen(o):
+    res = run_teegen({"kind": "teegen", "gene": o["gene"], "pairs": o["pairs"]})
+    return bool(res["violations"]), (res["violations"][0]["what"] if res["violations"]
+                                     else "not reproduced")
 
 
 def replay_tee(o):
